@@ -29,6 +29,11 @@ theorem step_once {c : Cfg} {σ σ' : RunSt} {g : Ghost} (hi : FInv c σ g) (hcr
     subst hs
     refine ⟨hm, ?_⟩
     simp only [gstep]; split <;> exact hn
+  | produceFail =>
+    simp only [opStep, Option.some.injEq] at hs
+    subst hs
+    refine ⟨hm, ?_⟩
+    simp only [gstep]; split <;> exact hn
   | restart => cases hop
   | crash _ => cases hop
   | reap =>
